@@ -219,7 +219,8 @@ def check(tier, seed, replay=None):
         cpath = os.path.join(WORK, 'data', 'quantcoll_%05d.dat' % (os.getpid() % 100000))
         os.makedirs(os.path.dirname(cpath), exist_ok=True)
         for b in (4, 8, 16, 32, 64):
-            for dim in ([1, 2, 3, 5, 8] if tier == 'quick' else list(range(1, 13))):
+            # 4 bits also with about a thousand components (two codes share a byte: whatever an encoder does per block or in parallel meets inside a byte)
+            for dim in ([1, 2, 3, 5, 8] if tier == 'quick' else list(range(1, 13))) + ([999, 1000, 1001] if b == 4 else []):
                 if nviol:
                     break
                 cmds = ['new %d %d 0 0' % (dim, b)]
